@@ -149,4 +149,97 @@ theorem srun_conforms (kind : List Byte → Kind) (C : Consts) (hstep : 0 < C.st
           have := List.append_cancel_left this
           simp at this
 
+/-- **The stream does not sit on a reply that is there** (the completeness oracle `SpecChain.complete`, on the model): for
+    every interleaving, once every byte of the peer's stream has arrived, no poll of the stream is pending while a reply is
+    still owed. -/
+theorem srun_complete (kind : List Byte → Kind) (C : Consts) (hstep : 0 < C.step) (sizes : Nat → Nat)
+    (F T : List (List Byte)) (hF : ∀ f ∈ F ++ T, FrameOK f) (hmax : (enc (F ++ T)).length < C.max) (count : Nat) :
+    ∀ (evs : List Ev) (ss : SS) (s : St) (e : Net) (fut : List Byte) (done R : List (List Byte)),
+      F = done ++ R → Inv C (F ++ T) s e fut done → EvsOK evs fut → (e.closed = true → fut = []) →
+      ss.count = count → owedWalk kind count ss.idx R = true → ss.done = R.isEmpty →
+      complete evs (srun kind C sizes evs ss s e).1 fut.length R.length = true := by
+  intro evs
+  induction evs with
+  | nil => intro ss s e fut done R _ _ _ _ _ _ _; simp [srun, complete]
+  | cons ev evs ih =>
+    intro ss s e fut done R hfr inv hok hcl hcnt hw hd
+    cases ev with
+    | arrive b =>
+      obtain ⟨fut', hfut, hok'⟩ := hok
+      simp only [srun, complete]
+      have hlen : fut.length - b.length = fut'.length := by rw [hfut]; simp
+      rw [hlen]
+      apply ih ss s { e with avail := e.avail ++ b } fut' done R hfr ?_ hok' ?_ hcnt hw hd
+      · obtain ⟨hcap, hbound, htail, R0, hfr0, hshape⟩ := inv
+        refine ⟨hcap, by simp; rw [hfut] at hbound; simp at hbound; omega, htail, R0, hfr0, ?_⟩
+        rcases hshape with ⟨h0, h1⟩ | ⟨h0, F1, F2, h1, h2, h3, h4⟩
+        · left; refine ⟨h0, ?_⟩
+          show s.data ++ (e.avail ++ b) ++ fut' = enc R0
+          rw [← h1, hfut]; simp
+        · right; refine ⟨h0, F1, F2, h1, h2, h3, ?_⟩
+          show (e.avail ++ b) ++ fut' = enc F2
+          rw [← h4, hfut]; simp
+      · intro h; have := hcl h; subst this
+        have : b = [] ∧ fut' = [] := by
+          have := hfut.symm; exact List.append_eq_nil_iff.mp this
+        exact this.2
+    | close =>
+      obtain ⟨hfut, hok'⟩ := hok
+      simp only [srun, complete]
+      apply ih ss s { e with closed := true } fut done R hfr ?_ hok' (fun _ => hfut) hcnt hw hd
+      obtain ⟨hcap, hbound, htail, hshape⟩ := inv
+      exact ⟨hcap, hbound, htail, hshape⟩
+    | poll =>
+      have hok' : EvsOK evs fut := hok
+      simp only [srun]
+      by_cases hdone : ss.done = true
+      · have hR : R = [] := by
+          rw [hdone] at hd
+          exact List.isEmpty_iff.mp hd.symm
+        subst hR
+        have hsp : spoll kind C sizes ss s e = (.ended, ss, s, e) := by simp [spoll, hdone]
+        rw [hsp]
+        simp only [complete, Bool.true_and]
+        exact ih ss s e fut done [] hfr inv hok' hcl hcnt hw hd
+      · have hdf : ss.done = false := by simpa using hdone
+        obtain ⟨f, R', hRe⟩ : ∃ f R', R = f :: R' := by
+          cases R with
+          | nil => rw [hdf] at hd; simp at hd
+          | cons a b => exact ⟨a, b, rfl⟩
+        subst hRe
+        have hframes : F ++ T = done ++ f :: (R' ++ T) := by rw [hfr]; simp
+        rcases poll_spec C hstep sizes (F ++ T) hF hmax s e fut done inv with
+          ⟨s', e', h1, h2, h3, h4, h5, h6⟩ | ⟨s', e', g, R'', h1, h2, h3, h4⟩ | ⟨s', e', h1, h2, h5⟩
+        · have hsp : spoll kind C sizes ss s e = (.pending, ss, s', e') := by simp [spoll, hdf, h1]
+          rw [hsp]
+          simp only [complete, Bool.and_eq_true]
+          refine ⟨?_, ih ss s' e' fut done (f :: R') hfr h2 hok' (by rw [h3]; exact hcl) hcnt hw hd⟩
+          -- pending although everything has arrived and `f` is owed: impossible
+          cases hfut : fut with
+          | cons a t => simp
+          | nil =>
+            exfalso
+            subst hfut
+            obtain ⟨s2, e2, hp, _, _⟩ := poll_complete C hstep sizes (F ++ T) hF hmax s e done f (R' ++ T) hframes inv
+            rw [hp] at h1
+            cases h1
+        · have hg : g = f := by
+            have := h2.symm.trans hframes
+            have := List.append_cancel_left this
+            simp at this; exact this.1
+          subst hg
+          have hsp : spoll kind C sizes ss s e = (.item g, advance kind ss g, s', e') := by simp [spoll, hdf, h1]
+          rw [hsp]
+          obtain ⟨a1, a2, a3⟩ := advance_spec kind count ss g R' hcnt hdf hw
+          simp only [complete, Bool.true_and, List.length_cons, Nat.add_sub_cancel]
+          exact ih (advance kind ss g) s' e' fut (done ++ [g]) R' (by rw [hfr]; simp) h3 hok'
+            (by rw [h4]; exact hcl) a1 a2 a3
+        · exfalso
+          have hfut := hcl h2
+          subst hfut
+          obtain ⟨hR0, _, _⟩ := h5 rfl
+          have : done ++ [] = done ++ f :: (R' ++ T) := by simpa using hR0.symm.trans hframes
+          have := List.append_cancel_left this
+          simp at this
+
 end Chain
